@@ -128,7 +128,7 @@ WellFormed(v) ==
          /\ v.f = NONE \/ (IsTime(v.f) /\ WellFormedTime(v.f))
          /\ v.t = NONE \/ (IsTime(v.t) /\ WellFormedTime(v.t))
          /\ (v.f # NONE /\ v.t # NONE /\ FullyDated(v.f) /\ FullyDated(v.t))
-              => AbsMin(DtOf(v.f)) <= AbsMin(LET e == EndOf(v.t) IN MkTs(e.y, e.m, e.d, e.H, e.M))
+              => TsLE(DtOf(v.f), LET e == EndOf(v.t) IN MkTs(e.y, e.m, e.d, e.H, e.M))
     [] IsDuration(v) -> v.n >= 0 /\ v.u \in Units
     [] OTHER -> FALSE
 =============================================================================
